@@ -297,6 +297,15 @@ let run (cmd : string) (a : v) : v =
       vlist (fun (acts, (((a, g), iv), st)) ->
         L [ vlist vact acts; vfid a; vfid g;
             (match iv with None -> S "none" | Some d -> L [vfid d.s_a; vfid d.s_g; vnat d.s_step]); vnat st ]) tr
+  | "placement", L [I w; I k; I meth; I sym; I fsz; I isz; L layers; I fstep; I istep] ->
+      let c = { pW = nat_of_int w; pk = nat_of_int k; pmeth = (match meth with 0 -> EigenPlain | 1 -> EigenPrediv | _ -> InverseM);
+                psym = (sym <> 0); pfsz = nat_of_int fsz; pisz = nat_of_int isz } in
+      let ls = List.map (function L [I a; I g; I wa; I wg] -> { na = nat_of_int a; ng = nat_of_int g; wa = nat_of_int wa; wg = nat_of_int wg } | _ -> failwith "player") layers in
+      vlist (fun ((mem, per), comm) ->
+        L [ vnat mem;
+            vlist (fun ((gw, (sa, sg)), (ca, cg)) -> L [vbool gw; vnat sa; vnat sg; vbool ca; vbool cg]) per;
+            vlist (fun (((kind, grp), n), root) -> L [vnat kind; vnat grp; vnat n; (match root with None -> I (-1) | Some x -> vnat x)]) comm ])
+        (placement_view c ls (fstep <> 0) (istep <> 0))
   | _ -> failwith ("unknown command or bad argument: " ^ cmd)
 
 let () =
